@@ -68,7 +68,24 @@ def main():
             if nviol <= 300:
                 R.violation({'kind': 'a textual route in or out does not preserve the text / does not agree with the validating constructor', 'type': t, 'input': b.decode('utf-8', 'replace'),
                              'input_hex': b.hex(), 'problems': pr, 'replay': "printf '%s\\n' | %s" % (line.replace('\t', '\\t'), harness)}, no_input=False)
-    R.cov['evaluations'] = len(lines)
+    # the TryFrom / From / try_into_* / as_* routes BETWEEN the eight reference types are textual routes in as well: each must accept
+    # exactly what the target's validating constructor accepts and keep the text (harness op conv, judged as in C13)
+    import c13
+    clines = []; cmeta = []
+    for x in c13.DELIM_RICH + ['', 'a', 's:', 's:a', '//h', 'a/b:c', './a:b', 'a/b?x:y#z', 'slots?from=12:30', '#t=00:01:30', 'é', 's:é', '?é', '%41:b', 'a%3Ab']:
+        clines.append('conv\t%s' % hexs(x)); cmeta.append(x.encode())
+    for t in ('uri_reference', 'iri_reference'):
+        for b in c01.sample_strings(dfas[t], random.Random(rnd.random()), 1000 if thorough else 150):
+            clines.append('conv\t%s' % hexs(b)); cmeta.append(b)
+    for b, line, io in zip(cmeta, clines, run_lines(harness, clines)):
+        pr, V = c13.conv_problems(dfas, b, io)
+        if pr:
+            nviol += 1
+            if nviol <= 300:
+                R.violation({'kind': 'a textual route in or out does not preserve the text / does not agree with the validating constructor', 'type': 'conversion between reference types',
+                             'input': b.decode('utf-8', 'replace'), 'input_hex': b.hex(), 'problems': pr[:4], 'replay': "printf '%s\\n' | %s" % (line.replace('\t', '\\t'), harness)}, no_input=False)
+    R.extra['conversion_inputs'] = len(clines)
+    R.cov['evaluations'] = len(lines) + len(clines)
     R.cov['distinct_nontrivial'] = len(classes)
     R.cov['rule'] = ('for each of the 20 types: strings from random walks through the translated validator, boundary edits and ill-formed UTF-8; every route in (13 per input) must accept '
                      'exactly when the validator does and keep text / payload; every route out of an accepted value (Display, Debug, as_str, as_bytes, to_owned, Clone, into_string, '
